@@ -197,8 +197,8 @@ def run_sequences(args):
     use_repo()
     from nautilus import Prior
     rng = np.random.default_rng(12345)
-    u1 = (np.arange(8) * 2 + 1) / 16.0
-    un = np.array([(np.arange(8) * 2 + 1) / 16.0, (np.arange(8) * 2 + 1) / 32.0, 1 - (np.arange(8) + 1) / 64.0])
+    u1 = (np.arange(16) * 2 + 1) / 32.0
+    un = np.array([(np.arange(16) * 2 + 1) / 32.0, (np.arange(16) * 2 + 1) / 64.0, 1 - (np.arange(16) + 1) / 128.0])
     del rng
     fin_path = os.path.join(tmp, 'c15_%d.in' % wid)
     impl_lines = []
@@ -270,7 +270,7 @@ def run_sequences(args):
                         direct.append((si, step, f))
                     d = len([a for a in spec.acc if a[1] == 'free'])
                     # model queries: (d,) input and one wrong-length input
-                    us = [Fraction(2 * i + 1, 16) for i in range(d)]
+                    us = [Fraction(2 * i + 1, 32) for i in range(d)]
                     for uvec in (us, us + [Fraction(1, 2)]):
                         fin.write('U2D %s\n' % ' '.join('%d/%d' % (x.numerator, x.denominator) for x in uvec))
                         try:
